@@ -340,3 +340,53 @@ func lemmaTypedGettersAgreeOnFound(st *SlimTrie, key string) (bool, bool, bool, 
 	_, f4 := st.GetI64(key)
 	return f0, f1, f2, f3, f4
 }
+
+// ---------------------------------------------------------------------------
+// loader / versions (C07)
+
+//@ func (*SlimTrie).compatibleVersions
+//@   property C07
+//@   ensures len(result) == 6 && result[0] == "==1.0.0" && result[1] == "==0.5.8" && result[2] == "==0.5.9"
+//@   ensures result[3] == "==0.5.10" && result[4] == "==0.5.11" && result[5] == "==0.5.12"
+//@   ensures fresh(result)
+
+//@ func (*SlimTrie).leftMost
+//@   property C02 C09 C04
+//@   opt kinds=frame
+//@   modifies *path, elems(*path)
+//@   allocates
+//@   loop 1 invariant path != nil ==> (samearr(*path, old(*path)) || fresh(*path))
+
+// ---------------------------------------------------------------------------
+// scan (C04): the refusal contract of getGEPath. Only the exceptional postcondition, the
+// normal postcondition and the frame are claimed for this function (its descent is bounded-checked).
+
+//@ func (*SlimTrie).getGEPath
+//@   property C04 C07
+//@   opt kinds=post,panic.explicit
+//@   requires st.inner != nil
+//@   panics st.inner.NodeTypeBM != nil && (st.inner.InnerPrefixes == nil || st.inner.InnerPrefixes.PositionBM == nil || st.inner.LeafPrefixes == nil)
+//@   ensures st.inner.NodeTypeBM == nil || (st.inner.InnerPrefixes != nil && st.inner.InnerPrefixes.PositionBM != nil && st.inner.LeafPrefixes != nil)
+//@   ensures st.inner.NodeTypeBM == nil ==> len(result0) == 0 && !result1
+
+// ---------------------------------------------------------------------------
+// String() (C19): the label bitmap handed to bmtree.Decode
+
+//@ func (*SlimTrie).getInnerBM
+//@   property C19
+//@   requires st.inner != nil && st.inner.Inners != nil && qr != nil
+//@   opt kinds=post,frame
+//@   ensures int(qr.to - qr.from) == int(st.inner.ShortSize) ==> result1 == 17 && len(result0) == 1 && result0[0] == qr.bm
+//@   ensures int(qr.to - qr.from) != int(st.inner.ShortSize) ==> result1 == qr.to - qr.from
+
+// ---------------------------------------------------------------------------
+// statistics (C18)
+
+//@ func (*SlimTrie).Stat
+//@   property C18
+//@   requires st.inner != nil && len(st.levels) >= 1 && len(st.levels) <= 1000000
+//@   loop 1 invariant 0 <= i && i <= level_cnt && rst != nil && level_cnt == len(st.levels) && fresh(rst)
+//@   ensures int(result.LevelCnt) == len(st.levels)
+//@   ensures result.NodeCnt == st.levels[len(st.levels)-1].total
+//@   ensures result.KeyCnt == ite(st.inner.NodeTypeBM == nil, 0, st.levels[len(st.levels)-1].leaf)
+//@   ensures fresh(result)
